@@ -641,6 +641,14 @@ var hostAtomsC14 = []string{"", "a", "example.com", "::1", "fe80::1%eth0", "1.2.
 	"fe80::1%25", "fe80::1%250", "fe80::1%25eth0", "::1%2", "name%25", "%25", "fe80::%41", "a%3Ab", "::ffff:1.2.3.4%25x"}
 
 func randHostC14(rng *rand.Rand) string {
+	if rng.IntN(25) == 0 {
+		// hosts around the length bounds other parts of the package enforce (label 63, name 253)
+		// and far past them: HostPort itself documents no bound on Host
+		n := pick(rng, 63, 64, 252, 253, 254, 255, 256, 1000, 5000)
+		lab := strings.Repeat(pick(rng, "x", "a1", "host-"), 70)[:pick(rng, 20, 50, 63)]
+		h := strings.Repeat(lab+".", n/len(lab)+1)[:n]
+		return pick(rng, h, strings.TrimSuffix(h, ".")+".", strings.Repeat("x", n))
+	}
 	switch rng.IntN(5) {
 	case 0, 1:
 		return pick(rng, hostAtomsC14...)
